@@ -137,6 +137,21 @@ extra11 = {
  "C15": "; two further stages (before / after the handshake) on a repository without chain split points (any network but mainnet: empty verification locator)",
  "C17": "; first starts through Load with a configured list that repeats a hash or holds two, configured hashes unmarked like any other, one configuration value handed to every instance of a history, the configured list merged again at every restart",
 }
+# additions of seed round 12
+extra12 = {
+ "C01": "; a long side branch that stays behind with a branch of its own, across a restart that keeps less than the outer fork depth, the inner one then overtaking; headers accepted after the latest prune count as held wherever they hang",
+ "C02": "; the real chain 556000..557500 with checking on, cleaned keeping 300 headers, one header marked invalid and unmarked (far above / at / just below / deep below the lowest header in memory), then every real header from there on must be accepted again",
+ "C03": "; the chain grown past the synthetic split heights and pruned (Clean / restart keeping 2 or 3 headers): foreign split headers whose parents are known only by height are still wrong-chain",
+ "C05": "; a source that never answers with a reorganisation 17 s into the request (after the first 10 s check)",
+ "C06": "; a new announcer after the timeout with 1..3 others still waiting: each of them is offered the transaction by its polls, one per window",
+ "C11": "; MaxBranchDepth 1 with the full and a depth-4 restart (stale side branches further below the tip than new forks may start)",
+ "C12": "; six-header histories on a two-header prefix (three branches, one tying the new tip); histories in which a header of the saved chain is marked invalid before the next Save / Clean",
+ "C13": "; sessions on a repository that holds the headers its verification locator names (synthetic split over preloaded blocks)",
+ "C14": "; the requested block delivered in two parts (split at six offsets, classic and extended framing) with Cancel issued by another goroutine during the pause",
+ "C16": "; no source at all (the manager gives up by itself) with one and two requests in the quick tier",
+}
+for k, v in extra12.items():
+    checks[k]["text"] += v
 for k, v in extra.items():
     checks[k]["text"] += v
 for k, v in extra11.items():
